@@ -272,7 +272,10 @@ func (viso *VirtualISO) scanDirectory() error {
 			}
 
 			// sector numbers are 32-bit in ISO9660 (and int32 here): bigger trees can't be represented
-			fileSectors := int64((fi.size + sectorSize - 1) / sectorSize)
+			fileSectors := int64(fi.size / sectorSize) // rounding up without overflow for sizes near MaxInt64
+			if fi.size%sectorSize != 0 {
+				fileSectors++
+			}
 			if int64(viso.filesSizeSectors)+fileSectors > math.MaxInt32 {
 				return fmt.Errorf("item %s: files are too large for ISO image", fullPath)
 			}
